@@ -121,13 +121,41 @@ fn inject_panic(rng: &mut Rng, scripts: &mut [Vec<Step>], pct: usize) {
     }
 }
 
+/// the operations of the case, mirrored for the watchdog as they are decided
+#[derive(Default)]
+struct Ops(Vec<String>);
+
+impl Ops {
+    fn push(&mut self, s: String) {
+        mirror_op(&s);
+        self.0.push(s);
+    }
+}
+
 struct Block {
     header: String,
     scripts: Vec<(usize, Vec<Step>)>,
-    ops: Vec<String>,
+    ops: Ops,
 }
 
 impl Block {
+    /// mirror header and scripts for the watchdog (call again when they change)
+    fn sync(&self) {
+        let lines = self
+            .scripts
+            .iter()
+            .map(|(c, s)| {
+                let mut l = format!("S {c}");
+                for st in s {
+                    l.push(' ');
+                    l.push_str(&st.text());
+                }
+                l
+            })
+            .collect();
+        mirror_case(&self.header, lines);
+    }
+
     fn print(&self, trace: &[String]) {
         let mut out = String::new();
         out.push_str(&self.header);
@@ -140,7 +168,7 @@ impl Block {
             }
             out.push('\n');
         }
-        for o in &self.ops {
+        for o in &self.ops.0 {
             out.push_str("O ");
             out.push_str(o);
             out.push('\n');
@@ -317,8 +345,9 @@ fn run_waves(rng: &mut Rng, fam: &str, id: &str) {
     let mut block = Block {
         header: format!("CASE {id} {model_fam} {mode} 0 {n} {}", kind.name()),
         scripts: scripts.iter().cloned().enumerate().collect(),
-        ops: vec![],
+        ops: Ops::default(),
     };
+    block.sync();
     let mut comb: Option<Box<dyn Comb>> = Some(match fam {
         "join" => build_join(kind, n),
         "try_join" => build_try_join(kind, n),
@@ -465,8 +494,9 @@ fn run_exh(fam: &str, id: &str, k: u64) {
     let mut block = Block {
         header: format!("CASE {id} {model_fam} {mode} 0 {n} {}", kind.name()),
         scripts: scripts.iter().cloned().enumerate().collect(),
-        ops: vec![],
+        ops: Ops::default(),
     };
+    block.sync();
     let mut comb: Option<Box<dyn Comb>> = Some(match fam {
         "join" => build_join(kind, n),
         "try_join" => build_try_join(kind, n),
@@ -580,8 +610,9 @@ fn run_fixed(rng: &mut Rng, fam: &str, id: &str, prof: &Profile) {
     let mut block = Block {
         header: format!("CASE {id} {model_fam} {mode} 0 {n} {}", kind.name()),
         scripts: scripts.iter().cloned().enumerate().collect(),
-        ops: vec![],
+        ops: Ops::default(),
     };
+    block.sync();
     // the real combinator
     let mut comb: Option<Box<dyn Comb>> = Some(match fam {
         "join" => build_join(kind, n),
@@ -725,8 +756,9 @@ fn run_group(rng: &mut Rng, stream: bool, id: &str, prof: &Profile) {
     let mut block = Block {
         header: String::new(),
         scripts: vec![],
-        ops: vec![],
+        ops: Ops::default(),
     };
+    block.sync();
     let mut mirror = SlabMirror::default();
     let mut key_of: Vec<Option<usize>> = vec![]; // child -> current key (None once gone)
     // constructor: new() / default() / with_capacity(k) (= new + reserve k) / from_iter (= new + extend)
@@ -763,6 +795,7 @@ fn run_group(rng: &mut Rng, stream: bool, id: &str, prof: &Profile) {
         let id = add_child(s.clone(), 0);
         assert_eq!(id, c);
         block.scripts.push((c, s));
+        block.sync();
         key_of.push(None);
         c
     };
@@ -810,6 +843,7 @@ fn run_group(rng: &mut Rng, stream: bool, id: &str, prof: &Profile) {
         Ctor::FromIter(cs) => format!("iter:{}", if cs.is_empty() { "-".to_string() } else { cs.iter().map(|c| c.to_string()).collect::<Vec<_>>().join(",") }),
     };
     block.header = format!("CASE {id} {model_fam} {MODE} {} 0 group {ctor_text}", if keyed { 1 } else { 0 });
+    block.sync();
     if let Ctor::FromIter(cs) = &ctor {
         // label the members with the keys slab hands out, as for `extend`
         for c in cs {
@@ -1125,8 +1159,9 @@ fn run_co(rng: &mut Rng, id: &str, prof: &Profile) {
     let mut block = Block {
         header: format!("CASE {id} co {MODE} {term} {shape} {} {} {items} {}", lt(&takes), lt(&limits), if vec_src { "v" } else { "s" }),
         scripts: scripts.iter().cloned().enumerate().collect(),
-        ops: vec![],
+        ops: Ops::default(),
     };
+    block.sync();
     let mut top: Option<CoComb> =
         Some(CoComb { top: build_co(term, shape, &takes, &limits, if vec_src { Some(items) } else { None }) });
     let nchild = scripts.len();
@@ -1211,7 +1246,8 @@ fn replay_co(header: &str, scripts: &[(usize, Vec<Step>)], ops: &[String]) {
         let s = scripts.iter().find(|(c2, _)| *c2 == c).map(|(_, s)| s.clone()).unwrap_or_default();
         add_child(s, c);
     }
-    let block = Block { header: header.to_string(), scripts: scripts.to_vec(), ops: ops.to_vec() };
+    let block = Block { header: header.to_string(), scripts: scripts.to_vec(), ops: Ops(ops.to_vec()) };
+    block.sync();
     let vec_items: Option<usize> = if hw.get(9).cloned() == Some("v") { Some(hw[8].parse().unwrap()) } else { None };
     let mut top: Option<CoComb> = Some(CoComb { top: build_co(term, shape, &takes, &limits, vec_items) });
     let mut finished = false;
@@ -1294,8 +1330,9 @@ fn run_nest(rng: &mut Rng, id: &str, prof: &Profile) {
                 .join(",")
         ),
         scripts: vec![],
-        ops: vec![],
+        ops: Ops::default(),
     };
+    block.sync();
     for c in 0..n {
         add_child_at(c, vec![], c);
     }
@@ -1318,6 +1355,7 @@ fn run_nest(rng: &mut Rng, id: &str, prof: &Profile) {
         add_child_at(*lid, s.clone(), *slot);
         block.scripts.push((*lid, s));
     }
+    block.sync();
     let mut top: Option<NestTop> = Some(build_nest(outer, &spec));
     let mut next_w = 1usize;
     let mut cur_w = 1usize;
@@ -1407,7 +1445,8 @@ fn replay_nest(header: &str, scripts: &[(usize, Vec<Step>)], ops: &[String]) {
         let slot = if *lid >= 100 { lid % 100 } else { *lid };
         add_child_at(*lid, s.clone(), slot);
     }
-    let block = Block { header: header.to_string(), scripts: scripts.to_vec(), ops: ops.to_vec() };
+    let block = Block { header: header.to_string(), scripts: scripts.to_vec(), ops: Ops(ops.to_vec()) };
+    block.sync();
     let mut top: Option<NestTop> = Some(build_nest(outer, &spec));
     let mut finished = false;
     for o in ops {
@@ -1523,7 +1562,8 @@ fn replay_one(header: &str, scripts: &[(usize, Vec<Step>)], ops: &[String]) {
         let s = scripts.iter().find(|(c2, _)| *c2 == c).map(|(_, s)| s.clone()).unwrap_or_default();
         add_child(s, c);
     }
-    let block = Block { header: header.to_string(), scripts: scripts.to_vec(), ops: ops.to_vec() };
+    let block = Block { header: header.to_string(), scripts: scripts.to_vec(), ops: Ops(ops.to_vec()) };
+    block.sync();
     let is_group = fam == "futGroup" || fam == "strGroup";
     if is_group {
         #[cfg(feature = "cfg-alloc")]
@@ -1712,6 +1752,8 @@ fn replay_group(stream: bool, keyed: bool, ops: &[String], ctor_text: &str) {
 fn main() {
     let args: Vec<String> = std::env::args().collect();
     std::panic::set_hook(Box::new(|_| {}));
+    // a case that stops making progress (deadlock) is printed as far as it got and ends the run
+    start_watchdog(std::env::var("FC_WATCHDOG_SECS").ok().and_then(|s| s.parse().ok()).unwrap_or(10));
     if args.get(1).map(|s| s.as_str()) == Some("replay") {
         replay();
         return;
